@@ -52,3 +52,23 @@ package identity
 //@     invariant modified == (rangeindex + 1 > n)
 //@     invariant modified ==> lastCommit == other.versions[rangeindex].commitHash
 //@     invariant repository.refs == old(repository.refs)
+
+// eff(i, clock, j): the time of `clock` in force at version j: the version's own entry, inherited from
+// the previous version when absent (0 before the first). Defined by recursion over the current heap
+// (definitional assumption in the contract below).
+//@ spec func eff(i *Identity, clock string, j int) uint64
+
+//@ func (*Identity).ValidKeysAtTime
+//@   props C08
+//@   nopanic
+//@   modifies nothing
+//@   let n = len(i.versions)
+//@   requires [wf] i != nil && (forall k int :: { i.versions[k] } 0 <= k && k < n ==> i.versions[k] != nil)
+//@   assume [eff-def] forall j int :: { eff(i, clockName, j) } 0 <= j && j < n ==> eff(i, clockName, j) == ((clockName in i.versions[j].times) ? i.versions[j].times[clockName] : (j == 0 ? 0 : eff(i, clockName, j - 1)))
+//@   ensures [none-yet]  n == 0 || eff(i, clockName, 0) > time ==> result == nil
+//@   ensures [in-force]  forall j int :: { eff(i, clockName, j) } 0 <= j && j < n && (forall k int :: { eff(i, clockName, k) } 0 <= k && k <= j ==> eff(i, clockName, k) <= time) && (j + 1 == n || eff(i, clockName, j + 1) > time) ==> result == i.versions[j].keys
+//@   loop 1
+//@     invariant -1 <= rangeindex && rangeindex < n
+//@     invariant forall k int :: { eff(i, clockName, k) } 0 <= k && k <= rangeindex ==> eff(i, clockName, k) <= time
+//@     invariant lastTime == (rangeindex < 0 ? 0 : eff(i, clockName, rangeindex))
+//@     invariant result == (rangeindex < 0 ? nil : i.versions[rangeindex].keys)
